@@ -868,6 +868,18 @@ def kernels(start_id):
             if k == n - 1:
                 f3 = dict(f, name="p%dadd" % pid[0])
                 add([], [f3], {"stmts": [], "fin": {"k": "pipe", "a": _pi(T(7), 7), "b": {"k": "app", "f": f3["name"], "args": [_pi(T(i), i) for i in range(k)]}}})
+                # supplied arguments of different syntactic forms (a call, an operator expression around a call, a nested application,
+                # a literal): all are evaluated left to right after the stage's input, whatever their form
+                if n == 3:
+                    forms = [lambda i: _pi(T(i), i), lambda i: {"k": "bin", "op": "+", "a": _pi(T(i), i), "b": {"k": "int", "v": 1}},
+                             lambda i: {"k": "app", "f": "p%did" % pid[0], "args": [_pi(T(i), i)]}, lambda i: {"k": "int", "v": i}]
+                    for fa, fb in itertools.product(range(4), repeat=2):
+                        if (fa, fb) in ((0, 0), (3, 3)):
+                            continue
+                        f4 = dict(f, name="p%dadd" % pid[0])
+                        idf = {"name": "p%did" % pid[0], "params": ["a"], "ptypes": [INT], "rtype": INT,
+                               "body": {"stmts": [{"k": "mark", "tag": T(6)}], "fin": {"k": "var", "x": "a"}}}
+                        add([], [idf, f4], {"stmts": [], "fin": {"k": "pipe", "a": _pi(T(7), 7), "b": {"k": "app", "f": f4["name"], "args": [forms[fa](0), forms[fb](1)]}}})
     # K3 if / elif / else chains: every truth assignment, expression and unit form, with and without else
     for n in (1, 2, 3):
         for vals in itertools.product([True, False], repeat=n):
